@@ -295,6 +295,15 @@ def value_facts(target: ast.AST, value: ast.expr, st: "State") -> set[Fact]:
         if nm[:1].isupper():  # constructor call (PEP 8 class name): the result is an object, never None
             return {(False, f"{x} is None")}
         return set()
+    if isinstance(value, ast.BoolOp) and isinstance(value.op, ast.Or) and len(value.values) == 2:
+        # `x = A or B`: with A known falsy x is B, with A known truthy x is A (equalities a later `x == B` test can be decided by)
+        a, b = value.values
+        ta = unparse(a)
+        if (False, ta) in st.must and isinstance(b, (ast.Name, ast.Attribute, ast.Constant)) and x not in names_in(b):
+            return {(True, f"{x} == {unparse(b)}")}
+        if (True, ta) in st.must and isinstance(a, (ast.Name, ast.Attribute)) and x not in names_in(a):
+            return {(True, f"{x} == {ta}")}
+        return set()
     if isinstance(value, ast.Name) and value.id != x:
         out = set()
         for pol, txt in st.must:
@@ -335,6 +344,7 @@ class FlowAnalysis:
         entry: frozenset | set | None = None,
         body: list[ast.stmt] | None = None,
         node_event: Callable[[ast.AST], Optional[str]] | None = None,
+        assume_only_once_bound: frozenset | set | None = None,
     ):
         self.fn_node = fn_node
         self.event_of = event_of
@@ -342,6 +352,10 @@ class FlowAnalysis:
         self.facts_at: dict[int, State] = {}
         self.exits: list[Exit] = []
         self._kill_cache: dict = {}
+        # assumptions about values computed later in the function (the condition a template alternative arises under): their names are
+        # bound once, so the binding itself must not erase what is assumed about the value it will have
+        for _pol, _txt in (assume_only_once_bound or ()):
+            self._kill_cache[_txt] = set()
         self._loop_stack: list[dict] = []
         self._try_stack: list[list[Optional[State]]] = []
         st = State(frozenset(entry or ()), frozenset())
